@@ -181,6 +181,26 @@ def search(res, tier, seed, deep=False):
         if bad:
             report(bad, "ISIMIP.step6", inp, det, "number of output values at a bound differs from round(n*P) (rescaled to sum n if needed)")
 
+    # (d) rounding at exact ties: with frequency adjustment off P is the observed frequency k/m; for m a power of two
+    #     n * k/m is exact in float64, so half-integers are hit exactly and must be rounded half to even (Python round)
+    d0 = debiaser("lower", False)
+    cnt = 0
+    for m in (2, 4, 8, 16):
+        for k in range(m + 1):
+            for n in range(1, 41 if tier == "quick" else 129):
+                mo = np.array([True] * k + [False] * (m - k)); mf = np.array([False] * n); mh = np.array([True, False])
+                got = int(d0._step6_get_nr_of_entries_to_set_to_bound(mo, mh, mf))
+                exact = Fraction(n * k, m)
+                fl_ = exact.numerator // exact.denominator; rem = exact - fl_
+                want = fl_ if rem < Fraction(1, 2) else fl_ + 1 if rem > Fraction(1, 2) else (fl_ if fl_ % 2 == 0 else fl_ + 1)
+                cnt += 1
+                if got != want:
+                    report("count-rounding", "ISIMIP._step6_get_nr_of_entries_to_set_to_bound", dict(kind="rounding", n=n, observed_beyond=k, observed_size=m), dict(got=got, want=int(want), n_times_P=str(exact)),
+                           "the number of entries to set to the bound is not round(n * P) with ties rounded to even")
+    res.evaluations += cnt
+    res.nontrivial.add(("rounding-grid",))
+    res.components["rounding grid"] = dict(cases=cnt, exhaustive=True)
+
 def step6_counts(d, obs, hist, fut):
     ISIMIP = I()
     with warnings.catch_warnings():
